@@ -264,9 +264,13 @@ func init() {
 		Assumptions: []string{"unit seeds: math trigonometric functions take/return radians; x*180/π and x*π/180 are the only conversions", "values multiplied by non-constant factors get a fresh unit variable (no false conflicts from scalars)"},
 		Run: func(c *core.Ctx, r *core.Report) {
 			E8Units(c, r)
+			E11SweepFlip(c, r)
 		},
 	})
 }
 
 // RunMutant is the entry point of the self-validation sub-process (thorough tier).
 func RunMutant(args []string) int { return runMutant(args) }
+
+// SelfValidate runs the mutants and the negative control of a property (thorough tier).
+func SelfValidate(id string, r *core.Report, extra map[string]any) { selfValidate(id, r, extra) }
